@@ -1,5 +1,5 @@
 SPECIFICATION Spec
-CONSTANTS MaxCalls = 6  MaxIO = 14  TwoFaults = FALSE  MaxPolicyChanges = 0  Gen = FALSE
+CONSTANTS MaxCalls = 6  MaxIO = 14  TwoFaults = FALSE  MaxPolicyChanges = 0  Gen = FALSE  FreshTriad = TRUE
 INVARIANT NoViolation
 INVARIANT OnlyLibraryFailures
 INVARIANT CloseResetsNoHist
